@@ -90,6 +90,7 @@ class Plan:
         self.freerun = 0
         self.max_events = 200000
         self.max_lex = 100000
+        self.allow = 0
 
     def copy(self):
         return copy.deepcopy(self)
@@ -99,6 +100,8 @@ class Plan:
              'limit %d %d' % (self.max_events, self.max_lex)]
         if self.freerun:
             o.append('freerun 1')
+        if self.allow:
+            o.append('allow %d' % self.allow)
         for i, s in enumerate(self.sources):
             o.append(s.text(i))
         for i, it in enumerate(self.insts):
@@ -120,7 +123,7 @@ class Plan:
         return {'junk_seed': self.junk_seed, 'junk_pat': self.junk_pat,
                 'sources': [s.to_json() for s in self.sources],
                 'insts': [i.to_json() for i in self.insts], 'sched': self.sched,
-                'freerun': self.freerun, 'max_events': self.max_events, 'max_lex': self.max_lex}
+                'freerun': self.freerun, 'max_events': self.max_events, 'max_lex': self.max_lex, 'allow': self.allow}
 
     @staticmethod
     def from_json(j):
@@ -133,6 +136,7 @@ class Plan:
         p.freerun = j.get('freerun', 0)
         p.max_events = j.get('max_events', 200000)
         p.max_lex = j.get('max_lex', 100000)
+        p.allow = j.get('allow', 0)
         return p
 
 
